@@ -126,6 +126,7 @@ def register(reg):
     register_verdicts(reg)
     register_step_stop(reg)
     register_require(reg)
+    register_dynamic(reg)
 
 
 # ================================================================================================ (1) constructors
@@ -996,33 +997,44 @@ def replay_require(inputs, clause):
         finally:
             veneer.currentSimulation, veneer.currentScenario, veneer.evaluatingRequirement = saved
 
+    key = clause.split("#")[-1]
+    want_all = key == "*"
     try:
-        shapes = [ast.literal_eval(inputs["formula"])] if inputs.get("formula") else []
-        for f in shapes + REQ_SHAPES:
-            names = atoms_of(f)
-            cands = []
-            if all(x in inputs for x in names):
-                cands.append({x: inputs[x] for x in names})
-            cands += [dict(zip(names, vs)) for vs in it.product([True, False, 2, 1], repeat=len(names))]
-            for val in cands:
-                calls = []
-                req = real_scenic(f, {x: (lambda x=x: (calls.append(x), val[x])[1]) for x in names}, [0])
-                out, log = call(req, runtime=True)
-                want = "ok" if py_truth(f, val) else "reject"
-                if out != want:
-                    return f"`require {show(f)}` executed at run time (inside a behavior / compose block) with {val}: outcome {out!r}, expected {want!r} (ordinary Boolean meaning of and/or/not/implies)"
-                if log:
-                    return f"run-time non-temporal require registered {log}"
+        if want_all or "non_temporal" in key or "no-unexpected-exception" in key:
+            given = ast.literal_eval(inputs["formula"]) if inputs.get("formula") else None
+            shapes = [given] if given in REQ_SHAPES else []
+            bool_only = key.endswith("[bool atoms]")
+            for f in shapes + REQ_SHAPES:
+                names = atoms_of(f)
+                cands = []
+                if all(x in inputs for x in names) and f is given:
+                    cands.append({x: inputs[x] for x in names})
+                cands += [dict(zip(names, vs)) for vs in it.product([True, False] if bool_only else [True, False, 2, 1], repeat=len(names))]
+                for val in cands:
+                    calls = []
+                    req = real_scenic(f, {x: (lambda x=x: (calls.append(x), val[x])[1]) for x in names}, [0])
+                    out, log = call(req, runtime=True)
+                    want = "ok" if py_truth(f, val) else "reject"
+                    if out != want:
+                        return f"`require {show(f)}` executed at run time (inside a behavior / compose block) with {val}: outcome {out!r}, expected {want!r} (ordinary Boolean meaning of and/or/not/implies)"
+                    if log:
+                        return f"run-time non-temporal require registered {log}"
         t = real_scenic(REQ_TEMPORAL, {x: (lambda: True) for x in atoms_of(REQ_TEMPORAL)}, [0])
-        out, log = call(t, runtime=True)
-        if out != "ok" or [k for k, _ in log] != ["dynamic"] or log[0][1][1] is not t:
-            return f"run-time temporal require: outcome {out}, registrations {log}"
-        out, log = call(t, runtime=False)
-        if out != "ok" or [k for k, _ in log] != ["static"] or log[0][1][2] is not t:
-            return f"compile-time temporal require: outcome {out}, registrations {log}"
-        out, log = call(t, runtime=False, prob=0.5)
-        if out != "invalid":
-            return f"temporal require with probability 0.5: outcome {out} (must be an InvalidScenarioError)"
+        if want_all or "run_time_temporal" in key or "no-unexpected-exception" in key:
+            out, log = call(t, runtime=True)
+            if out != "ok" or [k for k, _ in log] != ["dynamic"] or log[0][1][1] is not t:
+                return f"temporal `require {show(REQ_TEMPORAL)}` executed at run time: outcome {out!r}, registrations {[k for k, _ in log]} (must be handed to the scenario as a dynamic requirement, unevaluated)"
+        if want_all or "compile_time" in key or "InvalidScenarioError" in key:
+            out, log = call(t, runtime=False)
+            if out != "ok" or [k for k, _ in log] != ["static"] or log[0][1][2] is not t:
+                return f"compile-time temporal require: outcome {out!r}, registrations {[k for k, _ in log]}"
+            out, log = call(t, runtime=False, prob=0.5)
+            if out != "invalid":
+                return f"temporal require with probability 0.5: outcome {out!r} (must be an InvalidScenarioError)"
+            n = real_scenic(REQ_SHAPES[2], {x: (lambda: True) for x in "ab"}, [0])
+            out, log = call(n, runtime=False, prob=0.5)
+            if out != "ok" or [k for k, _ in log] != ["static"]:
+                return f"non-temporal require with probability 0.5 at compile time: outcome {out!r}, registrations {[k for k, _ in log]}"
     finally:
         veneer.currentSimulation, veneer.currentScenario, veneer.evaluatingRequirement = saved
     return None
@@ -1083,10 +1095,11 @@ def register_require(reg):
             if exc not in (None, "RejectSimulationException"):
                 return  # reported by #no-unexpected-exception
             holds = z_truth(I, f, val)
+            kind = "[bool atoms]" if all(isinstance(v, SV) for v in val.values()) else "[truthy non-bool atoms]"
             if exc is None:
-                eng.check(f"{cn}#ensures.run_time_non_temporal_requirement_false_implies_rejection", holds)
+                eng.check(f"{cn}#ensures.run_time_non_temporal_requirement_false_implies_rejection{kind}", holds)
             else:
-                eng.check(f"{cn}#ensures.run_time_non_temporal_requirement_rejected_only_if_false", z3.Not(holds))
+                eng.check(f"{cn}#ensures.run_time_non_temporal_requirement_rejected_only_if_false{kind}", z3.Not(holds))
             eng.check(f"{cn}#ensures.run_time_non_temporal_requirement_evaluated_now_and_not_registered", not log and sorted(set(calls)) == sorted(atoms_of(f)) and len(calls) == len(atoms_of(f)))
 
     reg.add(
@@ -1102,6 +1115,138 @@ def register_require(reg):
             bounded=True,
             note="non-temporal shapes: a, not a, a and b, a or b, a implies b, not (a and b); atom values: a symbolic bool, the int 2, the int 1 (truthy non-bools); "
             "temporal: always (a implies next b)",
+            properties=("C11",),
+        )
+    )
+
+
+# ================================================================================================ (8) requirements declared while the simulation runs
+DYN_PROGRAMS = {
+    "top-level compose block": """
+scenario Main():
+    setup:
+        ego = new Object
+    compose:
+        require always a[T()]
+        wait for 4 steps
+""",
+    "behavior of the top-level scenario": """
+behavior B():
+    require always a[T()]
+    while True:
+        wait
+ego = new Object with behavior B
+terminate after 4 steps
+""",
+    "compose block of a sub-scenario": """
+scenario Sub():
+    compose:
+        require always a[T()]
+        wait for 4 steps
+scenario Main():
+    setup:
+        ego = new Object
+    compose:
+        do Sub()
+""",
+    "setup block of a sub-scenario": """
+scenario Sub():
+    setup:
+        require always a[T()]
+    compose:
+        wait for 4 steps
+scenario Main():
+    setup:
+        ego = new Object
+    compose:
+        do Sub()
+""",
+}
+
+
+def run_program(body, table, steps=8):
+    """compile + simulate (built-in dummy simulator) a program whose atoms read a truth table indexed by the current step"""
+    import scenic
+    from scenic.core.simulators import DummySimulator
+
+    decl = "\n".join(f"{k} = {v!r}" for k, v in table.items())
+    src = f"{decl}\ndef T():\n    import scenic.syntax.veneer as v\n    return v.currentSimulation.currentTime if v.currentSimulation is not None else 0\n{body}\n"
+    sc = scenic.scenarioFromString(src, mode2D=True)
+    scene, _ = sc.generate(maxIterations=1)
+    try:
+        sim = DummySimulator().simulate(scene, maxSteps=steps, maxIterations=1, timestep=1)
+    except Exception as e:
+        return f"raised {type(e).__name__}: {e}"
+    return "rejected" if sim is None else "accepted"
+
+
+def replay_dynamic(inputs, clause):
+    table = dict(a=[True, True, False, True, True, True, True, True, True, True])
+    sit = inputs.get("situation")
+    pre = str(sit).split(":")[0] if sit else ""
+    order = [k for k in DYN_PROGRAMS if pre and (k.startswith(pre) or pre.startswith(k))] + list(DYN_PROGRAMS)
+    for k in order:
+        out = run_program(DYN_PROGRAMS[k], table)
+        if out != "rejected":
+            return f"`require always a` executed in the {k}, a false at step 2: simulation {out} (must be rejected at step 2)"
+    return None
+
+
+def register_dynamic(reg):
+    tgt = f"{D}:DynamicScenario._addDynamicRequirement"
+    cn = short_of(tgt)
+    SITUATIONS = ["setup block of a sub-scenario: not started yet", "compose block of a sub-scenario: running", "top-level compose block / behavior: running, requirements bound from the scene"]
+
+    def setup(I, env):
+        eng = I.eng
+        k = eng.choose(3, "situation")
+        eng.input_syms.append(("situation", C.Const(SITUATIONS[k]), SITUATIONS[k]))
+        old_req = PObj("DynamicRequirementStub", tag="earlier requirement")
+        old_mon = PObj("RequirementMonitorStub", tag="monitor of the earlier requirement")
+        sc = PObj(repo_class(f"{D}:DynamicScenario"), tag="scenario")
+        if k == 0:
+            sc.fields.update(_isRunning=False, _temporalRequirements=PList([old_req]), _requirementMonitors=None)
+        elif k == 1:
+            sc.fields.update(_isRunning=True, _temporalRequirements=PList([old_req]), _requirementMonitors=PList([old_mon]))
+        else:  # DynamicScenario._bindTo: self._temporalRequirements = scene.temporalRequirements, a tuple (Scene.__init__)
+            sc.fields.update(_isRunning=True, _temporalRequirements=(old_req,), _requirementMonitors=PList([old_mon]))
+        I.c11_veneer = dict(currentSimulation=PObj("Simulation", tag="simulation"), currentScenario=sc, evaluatingRequirement=False)
+        made = []
+
+        def create_monitor():
+            made.append(PObj("PropositionMonitorStub", tag=f"monitor{len(made)}"))
+            return made[-1]
+
+        req = PObj("PropositionStub", tag="the temporal requirement")
+        req.fields["create_monitor"] = BuiltinFn("create_monitor", create_monitor)
+        env.vars.update(self=sc, ty="require", req=req, line=7, name="r", _k=k)
+
+    def post(I, env, outcome):
+        eng = I.eng
+        if outcome[0] != "return":
+            return  # reported by #no-unexpected-exception
+        sc, req, k = env.vars["self"], env.vars["req"], env.vars["_k"]
+
+        def is_for(x):
+            return isinstance(x, PObj) and (x.fields.get("condition") is req or x.fields.get("proposition") is req)
+
+        if k == 0:
+            pend = sc.fields.get("_temporalRequirements")
+            eng.check(f"{cn}#ensures.declared_before_start_is_registered_for_the_monitors_created_at_start", isinstance(pend, PList) and sum(1 for x in pend.items if is_for(x)) == 1)
+        else:
+            mons = sc.fields.get("_requirementMonitors")
+            eng.check(f"{cn}#ensures.declared_while_running_is_monitored_from_now_on", isinstance(mons, PList) and sum(1 for x in mons.items if is_for(x)) == 1)
+
+    reg.add(
+        C.Contract(
+            tgt,
+            params={p: C.Const(None) for p in ("self", "ty", "req", "line", "name")},
+            setup=setup,
+            post=post,
+            inline_all=True,
+            replay=replay_dynamic,
+            bounded=True,
+            note="three situations in which veneer.require hands a temporal requirement to the current scenario at run time",
             properties=("C11",),
         )
     )
